@@ -14,6 +14,8 @@
 (*  ev = "ProcBody"    a.v = body fields of a MessagePublication, s.body =    *)
 (*                     SerializeBody of the processor's ourVAA, s.keyH2 = the *)
 (*                     aggregation key is the double hash of s.body           *)
+(*  ev = "Redigest"    a.v1 -> a.v2 by changing a.field in place / on a copy  *)
+(*                     after the digest was taken once; s = second digest etc.*)
 (*  ev = "Decode"      a.bytes = the input (short inputs), s = real decoder   *)
 (*                     outcome incl. the decoded fields                        *)
 (*  ev = "DecodeShape" a.L, a.ver, a.cnt = length, version byte, count byte;  *)
@@ -44,6 +46,18 @@ ProcBodyChecks(a, s) ==
      \* every guardian (different key, set, set index, sub-second time) built the same body and signed the same 32 bytes
      agree   |-> s.present => (s.distinctBodies = 1 /\ s.distinctKeys = 1)]
 
+\* Two-step history on ONE VAA value: the digest was taken, then field a.field was changed in place (or on a struct
+\* copy), then digest / body / encoding were taken again.  a.v1, a.v2 = the value before / after the change.
+RedigestChecks(a, s) ==
+    [body2       |-> s.body2 = Body(a.v2),
+     marshal2    |-> s.marshal2 = Encode(a.v2),
+     digest2H2   |-> s.digest2H2,                                      \* digest = double hash of the CURRENT body
+     distinct    |-> (Digest(a.v1) # Digest(a.v2)) => s.digestChanged, \* two different bodies never share a digest
+     same        |-> (Digest(a.v1) = Digest(a.v2)) => ~s.digestChanged,\* header / sub-second changes do not move it
+     bodyStart   |-> s.bodyStart = BodyStart(Len(a.v2.sigs)),
+     fromMarshal |-> s.digestFromMarshal,                              \* = the digest recomputed from Marshal()
+     original    |-> s.originalKept]                                   \* the value a copy was taken from keeps its digest
+
 DecodeChecks(a, s) ==
     LET d == Decode(a.bytes) IN
     IF ~d.ok
@@ -70,6 +84,7 @@ Checks(ln) ==
     ELSE IF Has(ln.s, "malformed") THEN [completeResult |-> FALSE]     \* success with a partially filled VAA
     ELSE CASE ln.ev = "Encode"      -> EncodeChecks(ln.a, ln.s)
            [] ln.ev = "ProcBody"    -> ProcBodyChecks(ln.a, ln.s)
+           [] ln.ev = "Redigest"    -> RedigestChecks(ln.a, ln.s)
            [] ln.ev = "Decode"      -> DecodeChecks(ln.a, ln.s)
            [] ln.ev = "DecodeShape" -> ShapeChecks(ln.a, ln.s)
            [] OTHER                 -> [knownEvent |-> FALSE]
